@@ -266,14 +266,84 @@ def minimise(f, workdir, tree, budget=60.0, canaries=None):
         if not rp.build():
             return ctx, False
 
+        # a finding of the canonical one-byte pass does not depend on the script at all: only the input is shortened and
+        # the replay keeps the canonical script; a finding of a scheduled pass must come from the scheduled pass again
+        canonical_phase = str(f.get("phase", "")).startswith(("canonical", "rescue"))
+
         def test(ins_, body_):
             if time.time() - t0 > budget:
                 return False
             ff, _ = rp.run(ins_, body_, fill)
-            return bool(_same(ff, oracle, kind))
+            same = _same(ff, oracle, kind)
+            if not canonical_phase and any(x.get("phase") == "scheduled" for x in same):
+                return True
+            return bool(same) and (canonical_phase or not any(x.get("phase") == "scheduled" for x in _same(f0, oracle, kind)))
 
+        def opts_and_source(ins, body):
+            # 5. reset options to their defaults one by one (rebuild each time)
+            argv = list(ctx["argv"])
+            i = 0
+            while i < len(argv) and time.time() - t0 < budget:
+                a = argv[i]
+                if a.startswith("-O") or a in ("-fyield-support", "-feof-support"):
+                    i += 1
+                    continue
+                width = 2 if a.startswith("--") else 1
+                cand = argv[:i] + argv[i + width:]
+                rp2 = Reproducer(dict(ctx, argv=cand), workdir, tree, canaries)
+                ok = False
+                try:
+                    if rp2.build():
+                        ff, _ = rp2.run(ins, body, fill)
+                        ok = bool(_same(ff, oracle, kind))
+                finally:
+                    rp2.close()
+                if ok:
+                    argv = cand
+                else:
+                    i += width
+            ctx["argv"] = argv
+            # 6. for generator-made programs (no reference model attached): drop source lines one at a time
+            if not ctx.get("family") and str(ctx.get("label", "")).startswith("gen:"):
+                lines = ctx["source"].split("\n")
+                i = len(lines) - 1
+                while i >= 0 and time.time() - t0 < budget:
+                    ln = lines[i].strip()
+                    simple = ln.endswith(";") and "{" not in ln and "}" not in ln and not ln.startswith(("yieldcode", "finishcode"))
+                    if simple:
+                        cand = "\n".join(lines[:i] + lines[i + 1:])
+                        rp3 = Reproducer(dict(ctx, source=cand), workdir, tree, canaries)
+                        ok = False
+                        try:
+                            if rp3.build():
+                                ff, _ = rp3.run(ins, body, fill)
+                                ok = bool(_same(ff, oracle, kind))
+                        finally:
+                            rp3.close()
+                        if ok:
+                            lines = lines[:i] + lines[i + 1:]
+                    i -= 1
+                ctx["source"] = "\n".join(lines)
+            return ctx
+
+        f0, _ = rp.run(ins, body, fill)
         if not test(ins, body):
             return ctx, False
+        if canonical_phase and len(ins) == 1:
+            (s0, x0), = ins.items()
+            caps = sched.Caps(rp.comp["meta"]["flags"])
+            canon_body = lambda x: [l for l in sched.canonical_ops(len(x), caps, fill, s0)]
+            x = x0
+            while len(x) > 1 and time.time() - t0 < budget and test({s0: x[:-1]}, canon_body(x[:-1])):
+                x = x[:-1]
+            while len(x) > 1 and time.time() - t0 < budget and test({s0: x[1:]}, canon_body(x[1:])):
+                x = x[1:]
+            ins = {s0: x}
+            body = canon_body(x)
+            ctx["inputs"] = {str(s0): x.hex()}
+            ctx["script"] = sched.run_text(0, ins, body)
+            ctx["minimised"] = "canonical-phase finding: input shortened, script is the canonical one-byte schedule"
+            return opts_and_source(ins, body), True
         # 1. single session
         sid = f.get("sid", 0)
         if len(ins) > 1 and sid in ins:
@@ -324,50 +394,7 @@ def minimise(f, workdir, tree, budget=60.0, canaries=None):
                     ins = cand_ins
         ctx["inputs"] = {str(k): v.hex() for k, v in ins.items()}
         ctx["script"] = sched.run_text(0, ins, body)
-        # 5. reset options to their defaults one by one (rebuild each time)
-        argv = list(ctx["argv"])
-        i = 0
-        while i < len(argv) and time.time() - t0 < budget:
-            a = argv[i]
-            if a.startswith("-O") or a in ("-fyield-support", "-feof-support"):
-                i += 1
-                continue
-            width = 2 if a.startswith("--") else 1
-            cand = argv[:i] + argv[i + width:]
-            rp2 = Reproducer(dict(ctx, argv=cand), workdir, tree, canaries)
-            ok = False
-            try:
-                if rp2.build():
-                    ff, _ = rp2.run(ins, body, fill)
-                    ok = bool(_same(ff, oracle, kind))
-            finally:
-                rp2.close()
-            if ok:
-                argv = cand
-            else:
-                i += width
-        ctx["argv"] = argv
-        # 6. for generator-made programs (no reference model attached): drop source lines one at a time
-        if not ctx.get("family") and str(ctx.get("label", "")).startswith("gen:"):
-            lines = ctx["source"].split("\n")
-            i = len(lines) - 1
-            while i >= 0 and time.time() - t0 < budget:
-                ln = lines[i].strip()
-                simple = ln.endswith(";") and "{" not in ln and "}" not in ln and not ln.startswith(("yieldcode", "finishcode"))
-                if simple:
-                    cand = "\n".join(lines[:i] + lines[i + 1:])
-                    rp3 = Reproducer(dict(ctx, source=cand), workdir, tree, canaries)
-                    ok = False
-                    try:
-                        if rp3.build():
-                            ff, _ = rp3.run(ins, body, fill)
-                            ok = bool(_same(ff, oracle, kind))
-                    finally:
-                        rp3.close()
-                    if ok:
-                        lines = lines[:i] + lines[i + 1:]
-                i -= 1
-            ctx["source"] = "\n".join(lines)
+        opts_and_source(ins, body)
         return ctx, True
     finally:
         rp.close()
